@@ -173,6 +173,8 @@ def parse_const(tok, lineno, line):
     if m:
         w = int(m.group(1))
         bits = m.group(2)
+        if w == 0 and len(bits) == 1:
+            bits = ""        # "0'0": how a zero-width constant is printed; read_rtlil truncates to the declared width
         if len(bits) != w:
             raise ParseError(lineno, f"constant declares {w} bits but has {len(bits)}", line)
         return Const("bits", bits[::-1], w)
